@@ -82,6 +82,9 @@ class Spellings(Job):
                 if self.unknown:
                     mods.setdefault("qartod", OrderedDict())["not_a_test"] = {"foo": [1, None]}
                     mods["not_a_module"] = OrderedDict({"gross_range_test": {"fail_span": [0, 1]}})
+                    mods["no.such.module"] = OrderedDict({"spike_test": {"suspect_threshold": 1}})
+                    if self.unknown == "first":
+                        mods = OrderedDict([("also_not_a_module", OrderedDict({"spike_test": {}}))] + list(mods.items()))
                 streams[sid] = mods
             win = None
             if S.w is not None:
@@ -115,7 +118,7 @@ class Spellings(Job):
         for (win, region, streams) in self.logical(S, K):
             for sid, mods in streams.items():
                 for m, tests in mods.items():
-                    if m == "not_a_module":
+                    if m in ("not_a_module", "no.such.module", "also_not_a_module"):
                         continue
                     for t, kw in tests.items():
                         if t == "not_a_test":
@@ -169,6 +172,18 @@ class Spellings(Job):
                 variants.update({"json_path_str": jp, "json_path": Path(jp), "yaml_path_str": yp, "yaml_path": Path(yp)})
                 ds = xr.Dataset({"v": ("time", np.arange(2.0))}, attrs={"ioos_qc_config": js})
                 variants["xarray_global_attr"] = ds
+                if lname == "streams":
+                    # per-variable attributes: one flag variable per (target stream, module, test)
+                    dvars = {}
+                    k = 0
+                    for sid, mods_ in plain.items():
+                        for mname, tests in mods_.items():
+                            for tname, kw in tests.items():
+                                dvars[f"qc{k}"] = xr.DataArray(np.zeros(2), dims=("time",), attrs={
+                                    "ioos_qc_module": mname, "ioos_qc_test": tname, "ioos_qc_target": sid,
+                                    "ioos_qc_config": json.dumps(kw if kw is not None else {})})
+                                k += 1
+                    variants["xarray_variable_attrs"] = xr.Dataset(dvars)
                 for vname, v in variants.items():
                     try:
                         out[f"{lname}:{vname}"] = self._calls(Config(v))
@@ -181,7 +196,22 @@ class Spellings(Job):
 
     # -- observation ------------------------------------------------------------------------------------------------------
     def observe(self, out):
-        return Outcome(flags=[z3.IntVal(1)], mask=[FALSE], shape=(1,), extra={"out": out})
+        # second flag: do all real carriers agree with the dict layouts?  (always 1 in the symbolic run, where the parsers are
+        # stubs that hand back the same mapping; computed for real on every witness)
+        agree = 1
+        if out["carriers"] is not None:
+            for key, calls in out["carriers"].items():
+                ref = out["layouts"].get(key.split(":")[0])
+                if isinstance(calls, str) or ref is None or len(calls) != len(ref):
+                    agree = 0
+                    continue
+                kf = lambda c: (c[0], c[1], c[2], str([_norm(x) for x in c[4]]))
+                for c, r in zip(sorted(calls, key=kf), sorted(ref, key=kf)):
+                    same = (c[0], c[1], c[2], c[5], c[6]) == (r[0], r[1], r[2], r[5], r[6]) and _plain_equal(c[3], r[3]) and \
+                        _plain_equal([_norm(x) for x in c[4]], [_norm(x) for x in r[4]])
+                    if not same:
+                        agree = 0
+        return Outcome(flags=[z3.IntVal(1), z3.IntVal(agree)], mask=[FALSE, FALSE], shape=(2,), extra={"out": out})
 
     @staticmethod
     def _same_value(a, b):
@@ -211,6 +241,12 @@ class Spellings(Job):
             return
         if self.canary == "drop_last":
             exp = exp[:-1]
+        # the property speaks of the *set* of calls: serialisers (YAML) may reorder mapping keys
+        calls = sorted(calls, key=lambda c: (str(c[4]), c[0], c[1], c[2]))
+        exp = sorted(exp, key=lambda e: (str((None, None) if e[4] is None else (e[4]["starting"], e[4]["ending"])), e[0], e[1], e[2]))
+        if len({(c[0], c[1], c[2]) for c in calls}) == len(calls) and len({(e[0], e[1], e[2]) for e in exp}) == len(exp):
+            calls = sorted(calls, key=lambda c: (c[0], c[1], c[2]))
+            exp = sorted(exp, key=lambda e: (e[0], e[1], e[2]))
         obl.append((f"{label}: exactly one call per configured (stream, module, test): {[(e[0], e[1], e[2]) for e in exp]} "
                     f"(got {[(c[0], c[1], c[2]) for c in calls]})",
                     TRUE if [(c[0], c[1], c[2]) for c in calls] == [(e[0], e[1], e[2]) for e in exp] else FALSE))
@@ -240,6 +276,19 @@ class Spellings(Job):
                 exp = self.expected_calls(S, Kt, default_stream="_stream" if lname == "modules" else None)
                 self._compare(f"carrier[{key}]", calls, exp, obl)
         return obl
+
+
+def _plain_equal(a, b):
+    if isinstance(a, dict) and isinstance(b, dict):
+        return list(a.keys()) == list(b.keys()) and all(_plain_equal(a[k], b[k]) for k in a)
+    if isinstance(a, (list, tuple)) and isinstance(b, (list, tuple)):
+        return len(a) == len(b) and all(_plain_equal(x, y) for x, y in zip(a, b))
+    if isinstance(a, float) and isinstance(b, float) and a != a and b != b:
+        return True
+    try:
+        return bool(a == b)
+    except Exception:
+        return False
 
 
 def _leaves(S):
@@ -311,6 +360,8 @@ def jobs(tier):
     out.append(Spellings("scalars", streams=1, tests=2, contexts=1, region=True))
     out.append(Spellings("scalars", streams=2, tests=3, unknown=True))
     out.append(Spellings("lists", streams=1, tests=2, unknown=True))
+    out.append(Spellings("scalars", streams=1, tests=2, unknown="first"))
+    out.append(Spellings("any", streams=2, tests=2, unknown="first"))
     if tier == "thorough":
         for sh in SHAPES:
             out.append(Spellings(sh, streams=2, tests=3, contexts=2, window=True))
